@@ -109,7 +109,26 @@ func genHistory(g *Gen, w *bufio.Writer, t *Ty, o histOpts) {
 			h = handles[len(handles)-1]
 		}
 		if h.basic {
-			if g.Chance(30) {
+			if h.t.Kind == KBytesN && g.Chance(60) {
+				// in-place writes on a (detached) byte-vector view must not reach any tree
+				nb := g.Bytes(int(h.t.N))
+				op := "rtxt"
+				if h.t.N == 32 && g.Bool() {
+					op = "rset"
+				}
+				fmt.Fprintf(w, "%s %s %s\n", op, h.name, hexs(nb))
+				h.v = &Val{Kind: VBytes, Bytes: nb}
+				fmt.Fprintf(w, "obs %s\n", h.name)
+				fmt.Fprintln(w, "obs r")
+				if o.memo {
+					fmt.Fprintln(w, "memo r")
+				}
+				if o.snaps {
+					for k := 0; k < nsnap; k++ {
+						fmt.Fprintf(w, "chk s%d\n", k)
+					}
+				}
+			} else if g.Chance(30) {
 				fmt.Fprintf(w, "obs %s\n", h.name)
 			}
 			h = root
